@@ -12,56 +12,88 @@ CONSTANTS GenCfg,        \* [init, min, max, flags, mm]: table the sequences are
           GenKeys,       \* keys used by generated operations
           GenOps,        \* names of the operations to generate
           ResizeOrders,  \* orders for explicit cds_lfht_resize (-1: size 0)
-          GridVals, GridFlags, GridMms, SweepFlags, SweepOrders
+          DestroyAfter,  \* destroying an EMPTY table (which ends the sequence) only from this length on
+          TwoLevel, KindSeq,
+          PrefixLen, PrefixKinds,   \* simulation: the first PrefixLen operations are additions (populated tables)
+          GridVals, GridFlags, GridMms, SweepVals, SweepFlags, SweepOrders,
+          SweepAll       \* TRUE: resize between every pair of sizes; FALSE: single steps, to size 0 and beyond the maximum
 
-VARIABLES hist, raw
-gvars == <<avars, hist, raw>>
+VARIABLES hist, raw, pick
+gvars == <<avars, hist, raw, pick>>
 
 H(op, n, k, s) == [op |-> op, n |-> n, k |-> k, s |-> s]
 Log(op, n, k, s) == hist' = Append(hist, H(op, n, k, s)) /\ UNCHANGED raw
 Usable == {n \in Nodes : st[n] \in {"fresh", "initdel"}}
 FreshNode == MinS(Usable)                     \* symmetry: nodes are taken from the pool in order
-On(op) == op \in GenOps
 
 \* ---------------------------------------------------------------- (a) operation sequences
-SInit == InitWith(GenCfg.init, GenCfg.min, GenCfg.max, GenCfg.flags, GenCfg.mm, Plat) /\ hist = <<>> /\ raw = GenCfg
+SInit == InitWith(GenCfg.init, GenCfg.min, GenCfg.max, GenCfg.flags, GenCfg.mm, Plat) /\ hist = <<>> /\ raw = GenCfg /\ pick = ""
 
-Op == \/ On("add") /\ Usable # {} /\ \E k \in GenKeys : Add(FreshNode, k) /\ Log("add", FreshNode, k, 0)
-      \/ On("addu") /\ Usable # {} /\ \E k \in GenKeys : AddUnique(FreshNode, k) /\ Log("addu", FreshNode, k, 0)
-      \/ On("addr") /\ Usable # {} /\ \E k \in GenKeys : AddReplace(FreshNode, k) /\ Log("addr", FreshNode, k, 0)
-      \/ On("repl") /\ Usable # {} /\ \E k \in GenKeys : Replace(FreshNode, k) /\ Log("repl", FreshNode, k, 0)
-      \/ On("del") /\ \E n \in Nodes : Del(n) /\ Log("del", n, 0, 0)
-      \/ On("deli") /\ DelIter /\ Log("deli", 0, 0, 0)
-      \/ On("delx") /\ Usable # {} /\ st[FreshNode] = "fresh" /\ DelInit(FreshNode) /\ Log("delx", FreshNode, 0, 0)
-      \/ On("isdel") /\ \E n \in Nodes : IsDeleted(n) /\ Log("isdel", n, 0, 0)
-      \/ On("lookup") /\ \E k \in GenKeys : Lookup(k, k) /\ Log("lookup", 0, k, k)
-      \/ On("lookupx") /\ \E hk, k \in GenKeys : hk # k /\ Lookup(hk, k) /\ Log("lookup", 0, k, hk)
-      \/ On("ndup") /\ iter.valid /\ iter.node # NULL /\ NextDup(nkey[iter.node]) /\ Log("ndup", 0, nkey[iter.node], 0)
-      \/ On("ndupx") /\ \E k \in GenKeys : iter.valid /\ iter.node # NULL /\ k # nkey[iter.node] /\ NextDup(k) /\ Log("ndup", 0, k, 0)
-      \/ On("first") /\ First /\ Log("first", 0, 0, 0)
-      \/ On("next") /\ Next /\ Log("next", 0, 0, 0)
-      \/ On("count") /\ Count /\ Log("count", 0, 0, 0)
-      \/ On("resize") /\ \E so \in ResizeOrders : Resize(so) /\ Log("resize", 0, 0, so)
-      \/ On("destroy") /\ Destroy /\ Log("destroy", 0, 0, 0)
+OpK(kd) ==                                    \* one operation of kind kd with any of its arguments
+      \/ kd = "add" /\ Usable # {} /\ \E k \in GenKeys : Add(FreshNode, k) /\ Log("add", FreshNode, k, 0)
+      \/ kd = "addu" /\ Usable # {} /\ \E k \in GenKeys : AddUnique(FreshNode, k) /\ Log("addu", FreshNode, k, 0)
+      \/ kd = "addr" /\ Usable # {} /\ \E k \in GenKeys : AddReplace(FreshNode, k) /\ Log("addr", FreshNode, k, 0)
+      \/ kd = "repl" /\ Usable # {} /\ \E k \in GenKeys : Replace(FreshNode, k) /\ Log("repl", FreshNode, k, 0)
+      \/ kd = "del" /\ \E n \in Nodes : Del(n) /\ Log("del", n, 0, 0)
+      \/ kd = "deli" /\ DelIter /\ Log("deli", 0, 0, 0)
+      \/ kd = "delx" /\ Usable # {} /\ st[FreshNode] = "fresh" /\ DelInit(FreshNode) /\ Log("delx", FreshNode, 0, 0)
+      \/ kd = "isdel" /\ \E n \in Nodes : IsDeleted(n) /\ Log("isdel", n, 0, 0)
+      \/ kd = "lookup" /\ \E k \in GenKeys : Lookup(k, k) /\ Log("lookup", 0, k, k)
+      \/ kd = "lookupx" /\ \E hk, k \in GenKeys : hk # k /\ Lookup(hk, k) /\ Log("lookup", 0, k, hk)
+      \/ kd = "ndup" /\ iter.valid /\ iter.node # NULL /\ NextDup(nkey[iter.node]) /\ Log("ndup", 0, nkey[iter.node], 0)
+      \/ kd = "ndupx" /\ \E k \in GenKeys : iter.valid /\ iter.node # NULL /\ k # nkey[iter.node] /\ NextDup(k) /\ Log("ndup", 0, k, 0)
+      \/ kd = "first" /\ First /\ Log("first", 0, 0, 0)
+      \/ kd = "next" /\ Next /\ Log("next", 0, 0, 0)
+      \/ kd = "count" /\ Count /\ Log("count", 0, 0, 0)
+      \/ kd = "resize" /\ \E so \in ResizeOrders : Resize(so) /\ Log("resize", 0, 0, so)
+      \/ kd = "destroy" /\ (chain # <<>> \/ Len(hist) >= DestroyAfter) /\ Destroy /\ Log("destroy", 0, 0, 0)
+KindOK(kd) ==                                 \* some operation of kind kd is possible in this state
+  CASE kd \in {"add", "addu", "addr"} -> Usable # {}
+    [] kd = "repl" -> Usable # {} /\ iter.valid
+    [] kd = "del" -> \E n \in Nodes : st[n] \in {"live", "dead"}
+    [] kd \in {"deli", "next"} -> iter.valid
+    [] kd = "delx" -> Usable # {} /\ st[FreshNode] = "fresh"
+    [] kd = "isdel" -> \E n \in Nodes : st[n] # "fresh"
+    [] kd = "lookupx" -> Cardinality(GenKeys) >= 2
+    [] kd = "ndup" -> iter.valid /\ iter.node # NULL
+    [] kd = "ndupx" -> iter.valid /\ iter.node # NULL /\ Cardinality(GenKeys) >= 2
+    [] kd = "destroy" -> chain # <<>> \/ Len(hist) >= DestroyAfter
+    [] OTHER -> TRUE
 
-SNext == \/ DoWork /\ UNCHANGED <<hist, raw>>
-         \/ Len(hist) < MaxLen /\ Op
+Finished == work = -1 /\ pick = "" /\ (Len(hist) = MaxLen \/ ~alive)
+(* exhaustive mode: any operation of GenOps.  Simulation (TwoLevel): first the kind, drawn from KindSeq (repetitions =
+   weights; TLC picks successors uniformly), then its arguments; a finished sequence is printed by its own final step,
+   so that -simulate emits exactly the behaviours it walked *)
+SNext == \/ DoWork /\ UNCHANGED <<hist, raw, pick>>
+         \/ /\ Idle /\ pick # "end" /\ Len(hist) < MaxLen
+            /\ IF TwoLevel
+               THEN IF pick = "" THEN \E i \in DOMAIN KindSeq : /\ KindOK(KindSeq[i]) /\ (Len(hist) < PrefixLen => KindSeq[i] \in PrefixKinds)
+                                                              /\ pick' = KindSeq[i] /\ UNCHANGED <<avars, hist, raw>>
+                    ELSE OpK(pick) /\ pick' = ""
+               ELSE (\E kd \in GenOps : OpK(kd)) /\ pick' = ""
+         \/ Finished /\ pick' = "end" /\ PrintT(<<"SEQ", ToJson(hist)>>) /\ UNCHANGED <<avars, hist, raw>>
 SSpec == SInit /\ [][SNext]_gvars
-Finished == work = -1 /\ (Len(hist) = MaxLen \/ ~alive)
-EmitSeq == Finished => PrintT(<<"SEQ", ToJson(hist)>>)
 
 \* ---------------------------------------------------------------- (b) configuration grid
 Grid == [init : GridVals, min : GridVals, max : GridVals, flags : GridFlags, mm : GridMms]
 CfgOut(g) == LET c == Norm(g.init, g.min, g.max, g.mm, Plat) IN
   [init |-> g.init, min |-> g.min, max |-> g.max, flags |-> g.flags, mm |-> g.mm,
    ok |-> c.ok, rmm |-> c.mm, sizeo |-> c.sizeo, mino |-> c.mino, maxo |-> c.maxo]
-CInit == \E g \in Grid : /\ InitWith(g.init, g.min, g.max, g.flags, g.mm, Plat) /\ hist = <<>> /\ raw = g
+(* every tuple of the grid with the outcome of LfhtNew!Norm: one initial state per tuple (the table variables are not
+   used here), NormOK checked on each *)
+CInit == \E g \in Grid : /\ InitWith(0, 0, 0, 0, "order", Plat) /\ hist = <<>> /\ raw = g /\ pick = ""
                          /\ PrintT(<<"CFG", ToJson(CfgOut(g))>>)
-\* every size of an accepted configuration, then destruction (the table is empty)
-CNext == /\ alive /\ raw.flags \in SweepFlags /\ UNCHANGED <<hist, raw>>
-         /\ \/ \E so \in SweepOrders : Resize(so)
-            \/ Destroy
-CSpec == CInit /\ [][CNext]_gvars
+CSpec == CInit /\ [][FALSE]_gvars
 NormOK == NormSane(Norm(raw.init, raw.min, raw.max, raw.mm, Plat))
-          /\ (alive => cfg.mino <= cfg.maxo /\ sizeo <= cfg.maxo)
+
+(* (c) allocator model: every table size of every configuration of the (smaller) sweep grid, reached by growing and
+   shrinking in every possible step, then destruction; AbsInv (MmValid) on every state *)
+MGrid == [init : SweepVals, min : SweepVals, max : SweepVals, flags : SweepFlags, mm : GridMms]
+MInit == \E g \in MGrid : InitWith(g.init, g.min, g.max, g.flags, g.mm, Plat) /\ hist = <<>> /\ raw = g /\ pick = "" /\ pick = ""
+MNext == /\ UNCHANGED <<hist, raw, pick>>
+         /\ \/ \E so \in SweepOrders : alive /\ so <= cfg.maxo + 1 /\ (SweepAll \/ so \in {-1, sizeo - 1, sizeo + 1, cfg.maxo + 1}) /\ Resize(so)
+            \/ Destroy
+            \/ DoWork
+MSpec == MInit /\ [][MNext]_gvars
+MmOK == alive => cfg.mino <= cfg.maxo /\ sizeo <= cfg.maxo
 ====
